@@ -42,7 +42,7 @@ pub fn build_spec(property: &str, tier: &str, seed: u64) -> Option<Spec> {
         "C07" => {
             let docs = Arc::new(c07::Docs::build(seed, if thorough { 6000 } else { 500 }, if thorough { 160 } else { 60 }));
             let phases: Vec<Box<dyn Phase>> = vec![
-                Box::new(c07::CharSweep::new(docs.clone(), if thorough { vec![0, 1, 2, 3, 4] } else { vec![0, 1, 4] })),
+                Box::new(c07::CharSweep::new(docs.clone(), if thorough { vec![0, 1, 2, 3, 4, 5] } else { vec![0, 1, 4, 5] })),
                 Box::new(c07::ByteSweep::new(docs.clone())),
                 Box::new(c07::Search { docs, runs: runs(8_000_000, 1_500_000_000, tier), max_items: 20_000 }),
             ];
